@@ -5,6 +5,7 @@ import (
 	"fmt"
 	"go/ast"
 	"go/token"
+	"go/types"
 	"sort"
 	"strconv"
 	"strings"
@@ -488,7 +489,7 @@ func genFacts(repo string) string {
 	out.WriteString("(* GENERATED by go2v (facts mode) from pkg/provider/*.go -- do not edit *)\n")
 	out.WriteString("From Saml Require Import Base.Bytes Idp.FactTypes.\nOpen Scope string_scope.\n\n")
 	files := map[string]*ast.File{}
-	for _, n := range []string{"sso.go", "login.go", "logout.go", "attribute_query.go", "response.go", "logout_response.go", "provider.go", "identityprovider.go", "template.go", "redirect.go", "post.go", "metadata.go", "probes.go"} {
+	for _, n := range []string{"sso.go", "login.go", "logout.go", "attribute_query.go", "response.go", "logout_response.go", "provider.go", "identityprovider.go", "template.go", "redirect.go", "post.go", "metadata.go", "probes.go", "endpoint.go"} {
 		files[n] = parse(fset, repo, "pkg/provider/"+n)
 	}
 	files["xml.go"] = parse(fset, repo, "pkg/provider/xml/xml.go")
@@ -537,5 +538,210 @@ func genFacts(repo string) string {
 	straightFacts(files["metadata.go"], "metadataHandle", "metadataHandle_seq", consts, &out)
 	straightFacts(files["identityprovider.go"], "certificateHandleFunc", "certificateHandle_seq", consts, &out)
 	straightFacts(files["xml.go"], "InflateAndDecode", "inflateAndDecode_seq", consts, &out)
+	out.WriteString("(* composite-literal fields of the metadata builders, routes *)\n")
+	pairList(&out, "idp_metadata_kv", kvFacts(funcDeclRecv(files["metadata.go"], "IdentityProviderConfig", "getMetadata"), "IdentityProviderConfig.getMetadata"))
+	pairList(&out, "entity_metadata_kv", kvFacts(funcDeclRecv(files["metadata.go"], "Config", "getMetadata"), "Config.getMetadata"))
+	pairList(&out, "router_calls", routerCalls(funcDecl(files["provider.go"], "CreateRouter")))
+	pairList(&out, "idp_routes", routeLits(funcDecl(files["identityprovider.go"], "GetRoutes")))
+	pairList(&out, "endpoint_defaults", kvFacts(funcDecl(files["identityprovider.go"], "endpointConfigToEndpoints"), "endpointConfigToEndpoints"))
+	pairList(&out, "entity_id_expr", returnExprs(funcDeclRecv(files["identityprovider.go"], "IdentityProvider", "GetEntityID")))
+	pairList(&out, "sso_response_kv", kvFacts(funcDecl(files["sso.go"], "ssoHandleFunc"), "ssoHandleFunc"))
+	pairList(&out, "callback_response_kv", kvFacts(funcDecl(files["login.go"], "callbackHandleFunc"), "callbackHandleFunc"))
+	pairList(&out, "logout_response_kv", kvFacts(funcDecl(files["logout.go"], "logoutHandleFunc"), "logoutHandleFunc"))
+	pairList(&out, "attrquery_response_args", callArgs(funcDecl(files["attribute_query.go"], "attributeQueryHandleFunc"), "makeAttributeQueryResponse"))
+	pairList(&out, "idp_getmetadata_calls", callArgsAll(funcDeclRecv(files["identityprovider.go"], "IdentityProvider", "GetMetadata")))
+	pairList(&out, "endpoint_absolute_src", returnExprs(funcDeclRecv(files["endpoint.go"], "Endpoint", "Absolute")))
+	pairList(&out, "endpoint_relative_src", returnExprs(funcDeclRecv(files["endpoint.go"], "Endpoint", "Relative")))
 	return out.String()
+}
+
+func pairList(out *strings.Builder, name string, ps [][2]string) {
+	var l []string
+	for _, p := range ps {
+		l = append(l, fmt.Sprintf("(%s, %s)", coqStr(p[0]), coqStr(p[1])))
+	}
+	fmt.Fprintf(out, "Definition %s : list (string * string) := [%s].\n", name, strings.Join(l, ";\n  "))
+}
+
+func funcDeclRecv(f *ast.File, recv, name string) *ast.FuncDecl {
+	if f == nil {
+		return nil
+	}
+	for _, d := range f.Decls {
+		fn, ok := d.(*ast.FuncDecl)
+		if !ok || fn.Name.Name != name || fn.Recv == nil || len(fn.Recv.List) == 0 {
+			continue
+		}
+		if exprStr(fn.Recv.List[0].Type) == recv {
+			return fn
+		}
+	}
+	return nil
+}
+
+// kvFacts: every key: value pair of the composite literals in a function body, keys prefixed by the enclosing keys,
+// values as source text; in source order
+func kvFacts(fn *ast.FuncDecl, what string) [][2]string {
+	if fn == nil {
+		problem("%s not found", what)
+		return nil
+	}
+	var out [][2]string
+	var lit func(c *ast.CompositeLit, prefix string)
+	unwrap := func(e ast.Expr) *ast.CompositeLit {
+		if u, ok := e.(*ast.UnaryExpr); ok && u.Op == token.AND {
+			e = u.X
+		}
+		c, _ := e.(*ast.CompositeLit)
+		return c
+	}
+	lit = func(c *ast.CompositeLit, prefix string) {
+		for _, el := range c.Elts {
+			if kv, ok := el.(*ast.KeyValueExpr); ok {
+				k := prefix + exprStr(kv.Key)
+				if inner := unwrap(kv.Value); inner != nil {
+					lit(inner, k+"/")
+				} else {
+					out = append(out, [2]string{k, types.ExprString(kv.Value)})
+				}
+			} else if inner := unwrap(el); inner != nil {
+				lit(inner, prefix)
+			} else {
+				out = append(out, [2]string{prefix + "_", types.ExprString(el)})
+			}
+		}
+	}
+	seen := map[*ast.CompositeLit]bool{}
+	ast.Inspect(fn.Body, func(n ast.Node) bool {
+		c, ok := n.(*ast.CompositeLit)
+		if !ok || seen[c] {
+			return true
+		}
+		ast.Inspect(c, func(m ast.Node) bool {
+			if cc, ok := m.(*ast.CompositeLit); ok {
+				seen[cc] = true
+			}
+			return true
+		})
+		lit(c, "")
+		return false
+	})
+	// plain assignments to fields (x.F = e) complete the picture
+	ast.Inspect(fn.Body, func(n ast.Node) bool {
+		if a, ok := n.(*ast.AssignStmt); ok && len(a.Lhs) == 1 && len(a.Rhs) == 1 {
+			if _, isSel := a.Lhs[0].(*ast.SelectorExpr); isSel && unwrap(a.Rhs[0]) == nil {
+				out = append(out, [2]string{"assign:" + types.ExprString(a.Lhs[0]), types.ExprString(a.Rhs[0])})
+			}
+		}
+		return true
+	})
+	return out
+}
+
+// routerCalls: the (path, handler) arguments of every Handle / HandleFunc call, in order; a range loop over routes is
+// ("range", <expression ranged over>)
+func routerCalls(fn *ast.FuncDecl) [][2]string {
+	if fn == nil {
+		problem("CreateRouter not found")
+		return nil
+	}
+	var out [][2]string
+	ast.Inspect(fn.Body, func(n ast.Node) bool {
+		switch x := n.(type) {
+		case *ast.RangeStmt:
+			out = append(out, [2]string{"range", types.ExprString(x.X)})
+		case *ast.CallExpr:
+			name := exprStr(x.Fun)
+			if (strings.HasSuffix(name, ".HandleFunc") || strings.HasSuffix(name, ".Handle")) && len(x.Args) == 2 {
+				out = append(out, [2]string{types.ExprString(x.Args[0]), types.ExprString(x.Args[1])})
+			}
+		}
+		return true
+	})
+	return out
+}
+
+// routeLits: the {endpoint, handler} pairs of the route list literal returned by GetRoutes
+func routeLits(fn *ast.FuncDecl) [][2]string {
+	if fn == nil {
+		problem("GetRoutes not found")
+		return nil
+	}
+	var out [][2]string
+	ast.Inspect(fn.Body, func(n ast.Node) bool {
+		if c, ok := n.(*ast.CompositeLit); ok && len(c.Elts) == 2 {
+			if _, kv := c.Elts[0].(*ast.KeyValueExpr); !kv {
+				out = append(out, [2]string{types.ExprString(c.Elts[0]), types.ExprString(c.Elts[1])})
+				return false
+			}
+		}
+		return true
+	})
+	return out
+}
+
+// returnExprs: the source text of the function's statements, one pair per statement: ("if", cond) / ("return", expr)
+func returnExprs(fn *ast.FuncDecl) [][2]string {
+	if fn == nil {
+		problem("function for returnExprs not found")
+		return nil
+	}
+	var out [][2]string
+	var walk func(l []ast.Stmt, prefix string)
+	walk = func(l []ast.Stmt, prefix string) {
+		for _, st := range l {
+			switch x := st.(type) {
+			case *ast.IfStmt:
+				out = append(out, [2]string{prefix + "if", types.ExprString(x.Cond)})
+				walk(x.Body.List, prefix+"then:")
+			case *ast.ReturnStmt:
+				var rs []string
+				for _, r := range x.Results {
+					rs = append(rs, types.ExprString(r))
+				}
+				out = append(out, [2]string{prefix + "return", strings.Join(rs, ", ")})
+			default:
+				out = append(out, [2]string{prefix + "other", "?"})
+			}
+		}
+	}
+	walk(fn.Body.List, "")
+	return out
+}
+
+// callArgs: the arguments (source text) of the first call of the named function inside fn
+func callArgs(fn *ast.FuncDecl, callee string) [][2]string {
+	if fn == nil {
+		problem("function for callArgs(%s) not found", callee)
+		return nil
+	}
+	var out [][2]string
+	ast.Inspect(fn.Body, func(n ast.Node) bool {
+		if c, ok := n.(*ast.CallExpr); ok && out == nil && exprStr(c.Fun) == callee {
+			for i, a := range c.Args {
+				out = append(out, [2]string{fmt.Sprintf("arg%d", i), types.ExprString(a)})
+			}
+		}
+		return true
+	})
+	if out == nil {
+		problem("no call of %s", callee)
+	}
+	return out
+}
+
+// callArgsAll: every call in the function as (callee, full source text), in order
+func callArgsAll(fn *ast.FuncDecl) [][2]string {
+	if fn == nil {
+		problem("function for callArgsAll not found")
+		return nil
+	}
+	var out [][2]string
+	ast.Inspect(fn.Body, func(n ast.Node) bool {
+		if c, ok := n.(*ast.CallExpr); ok {
+			out = append(out, [2]string{exprStr(c.Fun), types.ExprString(c)})
+		}
+		return true
+	})
+	return out
 }
